@@ -46,7 +46,11 @@ class Noise(object):
 
 
 def run_scenario(vsc, render, flat, sc, variant):
-    from pvs.model.rand_helpers import mk_randstate
+    from pvs.model.rand_helpers import mk_randstate as _mk
+    sv = sc.get("strval")
+
+    def mk_randstate(n):
+        return _mk(n, sv)
     prog = sc["prog"]
     if variant["diag"] == "srcinfo":
         src = render.program_source(prog).replace("@vsc.randobj\n", "@vsc.randobj(srcinfo=True)\n")
